@@ -127,6 +127,7 @@ type PEvent struct {
 	Site    string `json:"site"`
 	Msg     string `json:"msg"`
 	PV      []Rec  `json:"pv"`
+	Ctor    bool   `json:"ctor"` // the exported constructors accept the components of the parsed value
 	Reprint string `json:"reprint"`
 	Re      string `json:"re"` // na|value|invalid|nil|error|panic|panic-print
 	ReSite  string `json:"resite"`
@@ -146,6 +147,7 @@ func parseCase(kind, in, src string) {
 		r = parseKind(kind, in, false)
 		ev.Out, ev.Site, ev.Msg, ev.PV = r.Out, r.Site, r.Msg, r.Recs
 		if r.Out == "value" {
+			ev.Ctor = constructible(kind, r.Recs)
 			s, p, site, _ := printValue(r.V)
 			if p {
 				ev.Re, ev.ReSite = "panic-print", site
@@ -158,6 +160,9 @@ func parseCase(kind, in, src string) {
 	})
 	tw.Emit(ev)
 	stat("P:" + kind + ":" + r.Out)
+	if src == "tlc" {
+		stat("tlc-cases")
+	}
 	countCase(key, r.Out != "error" || src == "mut" || src == "alt" || src == "tlc")
 	if r.Out != "error" {
 		keepSample("P-"+kind+"-"+r.Out, ev)
@@ -232,10 +237,20 @@ func runParse(candFile string) {
 	thorough := tier == "thorough"
 	// 1. TLC candidates first (Layer B predictions of panics / ambiguous inputs)
 	for _, c := range loadCands(candFile) {
-		if c.M == "parse" {
+		switch c.M {
+		case "parse":
 			parseCase(c.Kind, untok(c.In), "tlc")
 			stat("cands")
+		case "file":
+			lines := make([]string, len(c.Lines))
+			for i, l := range c.Lines {
+				lines[i] = untok(l)
+			}
+			readerCase(lines, untok(c.Sep), c.Trailing, "replay")
 		}
+	}
+	if onlyCands {
+		return
 	}
 	// 2. the empty string and all strings up to L over the delimiter alphabet, for every parser
 	L := 3
